@@ -143,3 +143,18 @@ mod tests {
         assert_eq!(result[1], Polynomial::from_raw(vec![59, 53, 1]));
     }
 }
+
+/// Verification wrappers around the private stages (feature `verif-hooks` only).
+#[cfg(feature = "verif-hooks")]
+pub mod verif {
+    use crate::polynomial::Polynomial;
+    use num::BigInt;
+    pub fn hensel_lift_multiple(
+        p: &BigInt,
+        q: &BigInt,
+        c: &Polynomial<BigInt>,
+        factors: &[Polynomial<BigInt>],
+    ) -> (Vec<Polynomial<BigInt>>, BigInt) {
+        super::hensel_lift_multiple::<BigInt>(p, q, c, factors)
+    }
+}
